@@ -78,5 +78,86 @@ Proof.
   destruct (wt w GroupLiberties =? 0) eqn:E; intro HH; inversion HH; subst; unfold aw. { lia. }
   assert (P : 0 <= pc (andnot (grow c (compl64 other) allg) allg) <= 64).
   { apply pc64, hi0_andnot, hi0_grow, hi0_compl64, Ho. }
-  pose proof (mulb (wt w GroupLiberties) _ 64 (conj (ltac:(lia)) (proj2 P))). lia.
+  pose proof (mulb (wt w GroupLiberties) (pc (andnot (grow c (compl64 other) allg) allg)) 64 ltac:(lia)). lia.
 Qed.
+
+(* ---- mobility ---- *)
+Lemma ray_hi0 fuel e stop step m : hi0 64 e -> hi0 64 m -> (forall x, hi0 64 x -> hi0 64 (step x)) -> hi0 64 (ray fuel e stop step m).
+Proof.
+  revert e m. induction fuel as [|f IH]; intros e m He Hm Hs; cbn [ray]; [assumption|].
+  destruct (N.land e stop =? 0)%N; [|assumption]. apply IH; auto. now apply hi0_lor.
+Qed.
+Lemma mobility_hi0 c p b h : hi0 64 b -> hi0 64 (mobility c p b h).
+Proof.
+  intro Hb. unfold mobility.
+  apply ray_hi0; [now apply hi0_shiftr| |intros; now apply hi0_shiftr].
+  apply ray_hi0; [apply hi0_u64| |intros; apply hi0_u64].
+  apply ray_hi0; [now apply hi0_shiftr| |intros; now apply hi0_shiftr].
+  apply ray_hi0; [apply hi0_u64|assumption|intros; apply hi0_u64].
+Qed.
+
+(* the captive mask (1 << size) - 1 keeps at most 8 bits *)
+Lemma stackmask_hi0 s : (3 <= s <= 8)%N -> hi0 8 (u64 (shl64 1 s + (2 ^ 64 - 1))).
+Proof.
+  intro H. apply lt_hi0.
+  assert (C : s = 3%N \/ s = 4%N \/ s = 5%N \/ s = 6%N \/ s = 7%N \/ s = 8%N) by lia.
+  destruct C as [->|[->|[->|[->|[->| ->]]]]]; vm_compute; reflexivity.
+Qed.
+
+(* ---- the per-square term ---- *)
+Lemma square_score_bound s w p i h : (3 <= s <= 8)%N -> (h < 256)%N -> hi0 64 (White p) -> hi0 64 (Black p) ->
+  Z.abs (square_score (precompute s) w p i h) <= bound_square w.
+Proof.
+  intros Hs Hh HW HB. unfold square_score, bound_square.
+  pose proof (aw_nonneg w HardTopCap). pose proof (aw_nonneg w CapMobility). pose proof (aw_nonneg w ThrowMine).
+  pose proof (aw_nonneg w ThrowTheirs). pose proof (aw_nonneg w ThrowEmpty). pose proof (aw_nonneg w FlatCaptives_Soft).
+  pose proof (aw_nonneg w FlatCaptives_Hard). pose proof (aw_nonneg w StandingCaptives_Soft). pose proof (aw_nonneg w StandingCaptives_Hard).
+  pose proof (aw_nonneg w CapstoneCaptives_Soft). pose proof (aw_nonneg w CapstoneCaptives_Hard).
+  destruct (N.leb_spec h 1); [lia|].
+  destruct (consts_hi0 s Hs) as [_ ->].
+  set (st := N.land (N.land _ _) (u64 (shl64 1 s + (2 ^ 64 - 1)))).
+  assert (Ps : 0 <= pc st <= 8). { apply (pc_bounds 8). apply hi0_land_r. now apply stackmask_hi0. }
+  set (b0 := bit (N.of_nat i)).
+  assert (Hb0 : hi0 64 b0) by apply hi0_bit.
+  set (white := negb (N.land (White p) b0 =? 0)%N).
+  assert (HF : exists hf sf sign, (if white then (Z.of_N h - pc st - 1, pc st, 1) else (pc st, Z.of_N h - pc st - 1, -1)) = (hf, sf, sign)
+               /\ -254 <= hf <= 254 /\ -254 <= sf <= 254 /\ (sign = 1 \/ sign = -1)).
+  { destruct white; eexists _, _, _; (split; [reflexivity|]); lia. }
+  destruct HF as (hf & sf & sign & -> & Hhf & Hsf & Hsign).
+  set (cap := negb (N.land (Caps p) b0 =? 0)%N).
+  (* capstone part *)
+  set (mob := pc (mobility (precompute s) p b0 (N.to_nat h))).
+  assert (Pm : 0 <= mob <= 64) by (apply pc64, mobility_hi0, Hb0).
+  set (sc1 := if cap then _ else 0).
+  assert (B1 : Z.abs sc1 <= aw w HardTopCap + 64 * aw w CapMobility).
+  { subst sc1. destruct cap; [|lia].
+    pose proof (mulb (wt w CapMobility) mob 64 ltac:(lia)). unfold aw.
+    destruct (Bool.eqb _ _); destruct Hsign as [-> | ->]; lia. }
+  clearbody sc1.
+  (* throw part *)
+  set (sc2 := if 0 <? hf then _ else sc1).
+  assert (B2 : Z.abs (sc2 - sc1) <= 64 * (aw w ThrowMine + aw w ThrowTheirs + aw w ThrowEmpty)).
+  { subst sc2. destruct (0 <? hf); [|lia].
+    set (throw := mobility (precompute s) p b0 (Z.to_nat hf)).
+    assert (Ht : hi0 64 throw) by (apply mobility_hi0, Hb0).
+    assert (P1 : 0 <= pc (N.land throw (White p)) <= 64) by (apply pc64, hi0_land_l, Ht).
+    assert (P2 : 0 <= pc (N.land throw (Black p)) <= 64) by (apply pc64, hi0_land_l, Ht).
+    assert (P3 : 0 <= pc (andnot throw (N.lor (White p) (Black p))) <= 64) by (apply pc64, hi0_andnot, Ht).
+    pose proof (mulb (wt w ThrowMine) (pc (N.land throw (White p))) 64 ltac:(lia)).
+    pose proof (mulb (wt w ThrowMine) (pc (N.land throw (Black p))) 64 ltac:(lia)).
+    pose proof (mulb (wt w ThrowTheirs) (pc (N.land throw (White p))) 64 ltac:(lia)).
+    pose proof (mulb (wt w ThrowTheirs) (pc (N.land throw (Black p))) 64 ltac:(lia)).
+    pose proof (mulb (wt w ThrowEmpty) (pc (andnot throw (N.lor (White p) (Black p)))) 64 ltac:(lia)).
+    unfold aw. destruct white; lia. }
+  clearbody sc2.
+  (* captives *)
+  assert (B3 : forall wh wsf, Z.abs (sign * (hf * wh + sf * wsf)) <= 254 * (Z.abs wh + Z.abs wsf)).
+  { intros wh wsf. pose proof (mulb wh hf 254 ltac:(lia)). pose proof (mulb wsf sf 254 ltac:(lia)). destruct Hsign as [-> | ->]; lia. }
+  pose proof (B3 (wt w StandingCaptives_Hard) (wt w StandingCaptives_Soft)).
+  pose proof (B3 (wt w CapstoneCaptives_Hard) (wt w CapstoneCaptives_Soft)).
+  pose proof (B3 (wt w FlatCaptives_Hard) (wt w FlatCaptives_Soft)).
+  unfold aw in *. clearbody cap white mob b0 st.
+  repeat match goal with |- context [Z.abs (wt ?ww ?f)] => let a := fresh "a" in set (a := Z.abs (wt ww f)) in *; clearbody a end.
+  destruct (negb (N.land (Standing p) b0 =? 0)%N); [lia|]. destruct cap; lia.
+Qed.
+
